@@ -28,6 +28,13 @@ def _norm(src):
             if isinstance(node.func, ast.Name) and node.func.id == 'set' and len(node.args) == 1 and \
                     isinstance(node.args[0], ast.List) and not node.keywords:
                 return ast.Set(elts=node.args[0].elts)
+            if ast.unparse(node.func) == 're.compile' and all(k.arg in ('pattern', 'flags') for k in node.keywords) and \
+                    not any(isinstance(a, ast.Starred) for a in node.args) and len(node.args) + len(node.keywords) <= 2:
+                # re.compile(pattern, flags): shown with positional arguments whichever way they were passed
+                by = dict(zip(('pattern', 'flags'), node.args))
+                by.update({k.arg: k.value for k in node.keywords})
+                if 'pattern' in by:
+                    return ast.Call(func=node.func, args=[by['pattern']] + ([by['flags']] if 'flags' in by else []), keywords=[])
             return node
     return ast.dump(N().visit(t))
 
@@ -65,6 +72,7 @@ def _depth2():
              "lambda x: 'a\\nb'", "a if 'x\\ny' else b",
              'b"it\'s"', "b'q\"q'", "'a\\x00b'", "'\\x1f\\x7f'", "'it\\'s'", '1e999', 'x[(a, b):c]',
              "re.compile(r'[a\\-z]')", "re.compile('(?i:ab)')", "re.compile(r'\\d+(?P<n>x)')",
+             "re.compile('a+b', flags=re.I)", "re.compile('a', **kw)", "re.compile('a', re.I, **kw)", "re.compile(flags=re.I | re.M, pattern='a+b')", "re.compile('a+b', re.X)", "re.compile(pattern='a+b')",
              '[x for x in y]', '{x: y for x in z}', '(x for x in y)', 'a[(b, c)]', 'a[b][c]', 'f(a)(b)', '(a, (b,))', '[(a,)]']
     for f in forms:
         if not f.startswith('*'):
@@ -272,13 +280,133 @@ def _check_ann(case):
     return c14._check(case)
 
 
+REGEXES = ['abcx|abdy', 'ab|ac', 'a|b', 'foo|foobar', '(abc|abd)', '(?:ab|ac)+', 'abc|abd|x', 'xa|ya', 'a(b|c)d', 'ab?|ac*', 'x(?:ab|ac)+y', '(?P<n>ab|ac)z|q',
+           'ab|abc|abd', 'a|ab|abc', '^ab$|^ac$', 'a.|a\\d', '[ab]c|[ab]d', 'abab|abba', '(ab|ac)\\1', 'a{2}b|a{2}c', 'ab|', '|ab', 'aa|ab|ba|bb',
+           # sets with a literal dash, scoped inline flags
+           '[a\\-z]', '[-az]', '[az-]', '[+--]b', '[\\w-]a', '[^-]a', '(?i:ab)c', '(?-i:ab)c', '(?i:a)(?s:.)b', 'a(?i:b|c)d']
+
+
+def _regex_cases(tier, seed):
+    for r_ in REGEXES:
+        yield {'regex': r_}
+    rnd = random.Random(seed)
+    for _ in range(60 if tier == 'quick' else 1500):
+        alts = [''.join(rnd.choice('ab') for _ in range(rnd.randint(0, 4))) + rnd.choice(['', '', 'c', 'd?', '[cd]', '(?:e|f)']) for _ in range(rnd.randint(2, 4))]
+        yield {'regex': '|'.join(alts) if rnd.random() < 0.6 else 'x(?:' + '|'.join(alts) + ')y'}
+
+
+def _check_regex(case):
+    """re.compile(<pattern>) is re-rendered from the parsed pattern: the pattern shown must match exactly the same strings"""
+    import re
+    src = f're.compile({case["regex"]!r})'
+    try:
+        re.compile(case['regex'])
+    except re.error:
+        return None
+    text, r = _text(src)
+    try:
+        shown = ast.parse(text, mode='eval').body
+        assert isinstance(shown, ast.Call) and ast.unparse(shown.func) == 're.compile' and len(shown.args) == 1 and not shown.keywords
+        shown_pat = ast.literal_eval(shown.args[0])
+        a, b = re.compile(case['regex']), re.compile(shown_pat)
+    except Exception as ex:      # noqa
+        return {'observed': f'{src} is displayed as {text!r}: {type(ex).__name__}', 'required': 'the call that was written', 'class': 'regex-unreadable'}
+    letters = sorted(set(c for c in case['regex'] if c.isalpha()) | {'z'})[:6]
+    for n in range(0, 7):
+        for tup in itertools.product(letters, repeat=n):
+            w = ''.join(tup)
+            ma, mb = a.fullmatch(w), b.fullmatch(w)
+            if (ma is None) != (mb is None) or (ma is not None and ma.groups() != mb.groups()):
+                return {'observed': f'{src} is displayed as {text!r}; on {w!r} the written pattern gives {ma and (ma.group(0), ma.groups())}, the displayed one {mb and (mb.group(0), mb.groups())}',
+                        'required': 'a pattern that matches the same strings', 'class': 'regex-meaning'}
+            if n * len(letters) ** n > 60000:
+                break
+    return None
+
+
+CONST_MODULE = '''\
+from typing import TypeVar, Union, List, Optional, Final, TypeAlias
+import typing as t
+import re
+T = TypeVar('T')
+S = TypeVar('S', 'str', 'bytes')
+B = TypeVar('B', bound='K')
+C = t.TypeVar('C', covariant=True)
+Alias = Union['K', int]
+Alias2: TypeAlias = 'List[K]'
+Alias3 = Optional[List['K']]
+NAMES: Final = ('a', 'b c')
+PATTERN: Final = re.compile('a+b', flags=re.I)
+PATTERN2: Final = re.compile(flags=re.M, pattern='^x')
+MAPPING: Final = {'key': ['v', 1], 2: ('t',  'u')}
+TEXT: Final = 'T'
+class K:
+    LEVELS: Final = ['str', 'bytes']
+    V = TypeVar('V', 'K', int)
+'''
+
+
+def _const_cases(tier, seed):
+    yield {'module': CONST_MODULE}
+
+
+def _check_consts(case):
+    """the value shown for a constant, type variable or type alias of a real module reads back as the expression that was written
+    (for type aliases: string parts unquoted, as for annotations)"""
+    from replay import fixtures, c14
+    from pydoctor import epydoc2stan, model
+    from pydoctor.stanutils import flatten_text
+    system = fixtures.build_system([('cm', case['module'], False)])
+    tree = ast.parse(case['module'])
+    written = {}
+    for scope, body in (('cm', tree.body), ('cm.K', next(n for n in tree.body if isinstance(n, ast.ClassDef)).body)):
+        for st in body:
+            if isinstance(st, (ast.Assign, ast.AnnAssign)) and st.value is not None:
+                tgt = st.targets[0] if isinstance(st, ast.Assign) else st.target
+                written[f'{scope}.{tgt.id}'] = st.value
+    fails = []
+    for name, value in written.items():
+        o = system.allobjects.get(name)
+        if o is None or o.value is None:
+            fails.append({'observed': f'{name} has no displayed value', 'required': 'a constant / type variable / alias with its value', 'class': 'const-missing'})
+            continue
+        rows = [flatten_text(r) for r in epydoc2stan._format_constant_value(o)]
+        shown = '\n'.join(rows[1:]) if rows and rows[0].strip() == 'Value' else '\n'.join(rows)
+        shown = shown.replace('\u21b5', '')          # the continuation mark of a wrapped line
+        try:
+            got = _norm(shown)
+        except SyntaxError:
+            fails.append({'observed': f'{name} = {ast.unparse(value)} is displayed as {shown!r}, which is not Python', 'required': 'reads back as the same expression',
+                          'class': 'const-unparsable'})
+            continue
+        if o.kind is model.DocumentableKind.TYPE_ALIAS:
+            want = ast.dump(N_norm(ast.parse(ast.unparse(ast.parse(c14._unstring_src(value), mode='eval').body), mode='eval').body))
+        else:
+            want = _norm(ast.unparse(value))
+        if got != want:
+            fails.append({'observed': f'{name} = {ast.unparse(value)} ({o.kind.name}) is displayed as {shown!r}', 'required': 'reads back as the same expression',
+                          'class': 'const-meaning:' + o.kind.name})
+    return fails or None
+
+
+def N_norm(t):
+    return ast.parse(ast.unparse(t), mode='eval').body
+
+
 HARNESS = {
+    'pydoctor/epydoc2stan.py:format_constant_value': {'cases': _const_cases, 'check': _check_consts,
+        'covers': ['pydoctor/astbuilder.py:TypeAliasVisitorExt.visit_Assign'],
+        'bound': 'one module with 17 constants, type variables and type aliases (strings inside TypeVar calls, aliases with string parts, '
+                 're.compile with keyword arguments, nested containers), at module and class level'},
     f'{P}:PyvalColorizer.colorize': {'cases': _cases, 'check': _check,
         'covers': [f'{P}:_OperatorDelimiter.__init__', f'{P}:_OperatorDelimiter.__exit__'],
         'budget_s': {'quick': 60, 'thorough': 600},
         'bound': 'every operator chain of depth three over 13 binary, 4 unary and 2 boolean operators with either grouping; 45 expression forms and 21 wrappers (depth two); 300 (5000) random deeper trees; oracle: the text parses back to the same AST'},
     'pydoctor/astutils.py:unstring_annotation': {'cases': _ann_cases, 'check': _check_ann,
         'bound': '4 signatures whose annotations use Literal under four spellings, nested in string annotations and generics; read back as Python'},
+    f'{P}:PyvalColorizer._colorize_re_tree': {'cases': _regex_cases, 'check': _check_regex,
+        'bound': '23 alternation patterns (common prefixes, empty alternatives, groups, back references) + 60 (1500) random alternations; the displayed pattern '
+                 'and the written one agree (match, groups) on every string of length <= 6 over the letters of the pattern'},
     f'{P}:PyvalColorizer._output': {'cases': _trunc_cases, 'check': _check_trunc,
         'bound': '6 values x 5 line lengths x 4 max-lines x {linebreakok}'},
 }
